@@ -11,6 +11,7 @@
      lexerr <Name> <n1> [<n2> ..] / <tokstart> <tokend>   -> spans orig | spans fixed
      split <s> <e> <pc>                   -> a-b c-d | PANIC
      cap <max> <w1.w2...>                 -> orig=.. fixed=..
+     prio <B|N|T|p/q> <B|N|T|p/q>         merge_fields value selection -> VAL both|left|right
    This file only parses and prints. *)
 open C10_model
 
@@ -172,6 +173,11 @@ let handle (line : string) : string =
      | Val (a, b) -> show_spans [a; b]
      | Error c -> "ERR " ^ c
      | Panic s -> "PANIC " ^ s)
+  | ["prio"; a; b] ->
+    let pr s = (match s with "B" -> Bottom | "N" -> Neutral | "T" -> Top | q -> Numeral (q_of_string q)) in
+    (match select_value true true (pr a) (pr b) with
+     | Val MergeBoth -> "VAL both" | Val TakeLeft -> "VAL left" | Val TakeRight -> "VAL right" | Val NoValue -> "VAL none"
+     | Error c -> "ERR " ^ c | Panic s -> "PANIC " ^ s)
   | ["cap"; mx; ws] ->
     let w = split_dots ws and m = z_of_string mx in
     let sh o = (match o with Val l -> "VAL " ^ string_of_int (List.length l) | Error c -> "ERR" | Panic _ -> "PANIC") in
